@@ -161,7 +161,7 @@ fn oracle(rec: &mut Recorder, d: &Decl, accepted: Option<&str>, documented: Opti
         return;
     }
     // zero-sized element anywhere but last in an unsized struct must not compile
-    if d.mac == Mac::Unsized && matches!(d.kind, Kind::Struct) {
+    if d.mac.is_unsized() && matches!(d.kind, Kind::Struct) {
         for x in d.insts() {
             let mut elems: Vec<bool> = vec![];
             if !d.fields.is_empty() {
@@ -190,7 +190,7 @@ fn oracle(rec: &mut Recorder, d: &Decl, accepted: Option<&str>, documented: Opti
         if !d.generic && !a1 {
             rec.fail("accepted_without_marker", &format!("{} -> {}", d.sexpr(), out));
         }
-        if d.mac.is_zc() || d.mac == Mac::Unsized {
+        if d.mac.is_zc() || d.mac.is_unsized() {
             // zero-copy types and the sized part: alignment 1, no padding, every field checked
             if !a1 || align != 1 {
                 rec.fail(&format!("zero_copy_not_align1_{}", d.mac.tok()), &format!("{} [{}] -> {}", d.sexpr(), label, out));
